@@ -55,6 +55,8 @@ EXTERNAL = {
     'gzip.open#read': ['EOFError', 'OSError', 'zlib.error'],
     'mimetypes.guess_type': [],
     'os.utime': [],                   # local file system errors are not server data
+    'os.symlink': ['OSError'],        # the link name comes from a listing: a repeated or nested name fails whatever the disk's state
+    'os.link': ['OSError'],
     'struct.unpack': ['struct.error'],
     'codecs.lookup': ['LookupError'],
     'codecs.getdecoder': ['LookupError'],
